@@ -41,6 +41,7 @@ func buildArchive(sb *sandbox, p Push, k int) (blob []byte, tarDigest digest.Dig
 		switch e.T {
 		case "reg":
 			h.Typeflag = tar.TypeReg
+			h.Name = strings.TrimRight(h.Name, "/") // the tar format has no regular entry with a trailing slash
 			body = fmt.Sprintf("DATA-%d-%d", k, j)
 			h.Size = int64(len(body))
 		case "dir":
@@ -51,6 +52,7 @@ func buildArchive(sb *sandbox, p Push, k int) (blob []byte, tarDigest digest.Dig
 			h.Typeflag = tar.TypeLink
 		default:
 			h.Typeflag = tar.TypeFifo
+			h.Name = strings.TrimRight(h.Name, "/")
 		}
 		if err := tw.WriteHeader(h); err != nil {
 			return nil, "", fmt.Errorf("entry %d: %w", j, err)
@@ -95,7 +97,10 @@ func lexInside(wd, p string) bool { return p == wd || strings.HasPrefix(p, wd+"/
 // working directory; the statement demands that such a push is refused.
 func lexicalDemands(sb *sandbox, p Push) (what []string, class string) {
 	title := sb.expand(p.Title)
-	if p.Title != "" && !lexInside(sb.wd, lexResolve(sb.wd, title)) {
+	if p.Title == "" {
+		return // unnamed content goes to the fallback storage: nothing is written or unpacked
+	}
+	if !lexInside(sb.wd, lexResolve(sb.wd, title)) {
 		what = append(what, fmt.Sprintf("title %q", p.Title))
 		class = "title"
 	}
@@ -249,7 +254,7 @@ func execute(c Case) (res worker.Result) {
 		}
 
 		var pushErr error
-		hasRelHardlink, hasLinks := false, false
+		hasRelHardlink, hasLinks, rootReplaced := false, false, false
 		switch p.Kind {
 		case "blob":
 			body := []byte(fmt.Sprintf("BLOB-%d", k))
@@ -265,6 +270,9 @@ func execute(c Case) (res worker.Result) {
 				}
 				if e.T == "link" || e.T == "sym" {
 					hasLinks = true
+				}
+				if e.T == "sym" && p.Title != "" && lexResolve(sb.wd, sb.expand(e.N)) == lexResolve(sb.wd, title) {
+					rootReplaced = true // a symlink entry named like the archive's own target directory
 				}
 			}
 			gz, tarDgst, err := buildArchive(sb, p, k)
@@ -334,9 +342,17 @@ func execute(c Case) (res worker.Result) {
 					inCwd = true
 				}
 			}
+			onlyTemp := true
+			for _, ch := range rep.Changes {
+				if !strings.HasPrefix(filepath.Base(ch.Path), "oras_file_") {
+					onlyTemp = false
+				}
+			}
 			key := ""
-			switch p.Kind {
-			case "blob", "restore":
+			switch {
+			case onlyTemp:
+				key = "tempfile-outside-tmpdir"
+			case p.Kind == "blob" || p.Kind == "restore":
 				if mech != "" {
 					key = "named-blob-through-" + via + "-link:" + mech
 				} else {
@@ -345,19 +361,19 @@ func execute(c Case) (res worker.Result) {
 				if p.Kind == "restore" {
 					key += ":restore"
 				}
+			case mech != "":
+				key = "archive-through-" + via + "-link:" + mech
+			case inCwd && hasRelHardlink:
+				key = "hardlink-cwd"
+			case rootReplaced:
+				key = "archive-root-replaced-by-symlink"
+			case hasLinks || k > 0 || len(sb.prepopLinks) > 0:
+				key = "write-through-link"
 			default:
-				switch {
-				case mech != "":
-					key = "archive-through-" + via + "-link:" + mech
-				case inCwd && hasRelHardlink:
-					key = "hardlink-cwd"
-				case hasLinks || k > 0 || len(sb.prepopLinks) > 0:
-					key = "write-through-link"
-				default:
-					key = "outside-write:archive"
-				}
+				key = "outside-write:archive"
 			}
 			ch := rep.Changes[0]
+			res.Count("viol:"+key, 1)
 			res.Violate(key, fmt.Sprintf("push #%d (%s, title %q, err=%v) %s %s outside the working directory (%s -> %s); %d object(s) changed",
 				k, p.Kind, p.Title, pushErr, ch.Kind, ch.Path, ch.Before, ch.After, len(rep.Changes)), witness(sb, reports))
 		}
@@ -367,12 +383,14 @@ func execute(c Case) (res worker.Result) {
 				if p.Kind == "restore" {
 					class = "restore-title"
 				}
+				res.Count("viol:lexical-escape-accepted:"+class, 1)
 				res.Violate("lexical-escape-accepted:"+class, fmt.Sprintf("push #%d (%s, title %q) returned nil although it contains %s, which resolve(s) outside the working directory",
 					k, p.Kind, p.Title, strings.Join(what, ", ")), witness(sb, reports))
 			}
 		}
 		if foreign := sb.foreignTmp(); len(foreign) > 0 {
 			violated = true
+			res.Count("viol:tmpdir-foreign-object", 1)
 			res.Violate("tmpdir-foreign-object", fmt.Sprintf("push #%d left %v in TMPDIR (only oras_file_* temporary files are excepted)", k, foreign), witness(sb, reports))
 		}
 		if violated {
